@@ -312,6 +312,24 @@ def event_names(ast: list) -> list[str]:
     return res
 
 
+def names_in_loops(ast: list) -> set[str]:
+    """Event names that occur inside some loop body."""
+    out: set[str] = set()
+
+    def walk(seq: list, inside: bool) -> None:
+        for st in seq:
+            if st[0] == "ev":
+                if inside:
+                    out.add(st[1])
+            elif st[0] in ("and", "or", "xor"):
+                for b in st[1]:
+                    walk(b, inside)
+            elif st[0] == "loop":
+                walk(st[1], True)
+    walk(ast, False)
+    return out
+
+
 def normal_form(ast: list) -> Any:
     """AST with branches recursively sorted; equal normal forms => equal languages."""
     def nf_seq(seq: list) -> tuple:
